@@ -673,15 +673,31 @@ def run_roots(ctx, spec):
           ctx.count('found:' + regime)
     elif kind in (2, 3):
       # bivariate mod p: p = x1||known||x2; default m=4 handles 120+120 of
-      # 1024 (0.117 each); planted at 0.5/0.8 of that.
+      # 1024 (0.117 each); planted at 0.5/0.8 of that.  Every other case asks
+      # for a larger lattice (m = 5..8: "for larger bounds one can use a
+      # larger value of m", documented limit n^0.207 for the product) with
+      # a product of bounds of up to n^0.145 (m = 7, 8), which the default
+      # lattice does not reach.
       ratio = r.choice([0.5, 0.8, 1.6])
       u = max(6, int(pb * 0.117 * ratio))
+      mm = None
+      if i % 2 == 1:
+        mm = r.choice([5, 6, 7, 7, 8])
+        # (measured reach on the unchanged tree, product of the bounds as a
+        # power of n: m = 4, 5: 0.12; m = 6: 0.10 - its t rounds down to 1;
+        # m = 7, 8: beyond 0.155.  Planted with margin inside each.)
+        u = int(pb * {5: 0.11, 6: 0.09}.get(mm, r.choice([0.137, 0.145])))
+        ratio = 0.8
       known = pb - 2 * u
       lx1 = known + u
       p0 = ((p >> u) % 2 ** known) << u
       f = sympy.Poly(p0 + x1 * 2 ** lx1 + x2, modulus=n)
-      got = small_roots.multivariate_modp(f, [2 ** u, 2 ** u])
-      regime = 'bi/%s' % ('in' if ratio <= 0.8 else 'out')
+      if mm is None:
+        got = small_roots.multivariate_modp(f, [2 ** u, 2 ** u])
+      else:
+        got = small_roots.multivariate_modp(f, [2 ** u, 2 ** u], m=mm)
+      regime = 'bi/%s' % ('in' if ratio <= 0.8 else 'out') if mm is None \
+          else 'bi-m%d/in' % mm
       ctx.count('planted:' + regime)
       ctx.distinct('bi', n, u)
       if got is not None:
@@ -767,7 +783,7 @@ def finalize(agg, tier):
   for k in ('sqrt_with_roots', 'row_moves_observed', 'vectors_returned',
             'sieve_history_calls',
             'fullrank_consistent_solved', 'found:uni/in', 'found:bi/in',
-            'found:modn/in'):
+            'found:modn/in', 'found:bi-m7/in'):
     if not c.get(k):
       inc.append('reach counter %s is zero' % k)
   # planted small roots: enforced regimes are the in-margin ratios
